@@ -11,29 +11,45 @@ RULE = ("the decoder's decision tree as in C03 (ascii, latin-1 complete; utf-8 t
         "three full levels in thorough), every node x full x the three naming modes compared with each other; "
         "every entry of both tables fed whole under every encoding and mode; seeded streams cut under the three "
         "modes; under utf-16, utf-16-le, utf-32 and cp1252 (real code only) every 1-byte string, 256 x 20 2-byte strings, "
-        "structured texts and seeded random streams of <= 10 bytes compared across the three modes; every valid configuration name (C-a..C-z, M-<0x20..0x7e>, F1..F12, SPECIALS, the empty name) and a "
+        "structured texts and seeded random streams of <= 10 bytes compared across the three modes; every valid configuration name (C-a..C-z, C-A..C-Z, M-<0x20..0x7e>, M-<3 non-ASCII characters>, F1..F12, SPECIALS, the empty name) and a "
         "catalogue of 44 invalid or unusual ones (model/implementation correspondence only). non-trivial = distinct "
         "case with at least 2 bytes or a non-ASCII byte, or a configuration name")
-ASSUMPTIONS = ["JUDGED DOMAIN of 'every key a configuration file can name': C-<lower-case letter a..z>, M-<printable ASCII "
-               "character 0x20..0x7e, space included>, F1-F12, the documented SPECIALS, and the empty (unbound) name. "
-               "OUTSIDE it: upper-case C-<LETTER> (keymap['C-A'] gives '<Ctrl-A>', which the decoder never produces) and "
-               "M-<non-ASCII character> (keymap['M-\u00e9'] gives '<Esc+\u00e9>', never produced): the property is silent on "
-               "them and on malformed names; they are tied model<->implementation (catalogue), not judged",
+ASSUMPTIONS = ["JUDGED DOMAIN of 'every key a configuration file can name' (all letters, all printable characters, all function "
+               "keys, all specials): C-<letter a..z and A..Z>, M-<printable ASCII character 0x20..0x7e>, M-<non-ASCII printable "
+               "character: the representatives U+00E9, U+00DF, U+0416>, F1-F12, the documented SPECIALS, and the empty (unbound) "
+               "name; malformed names are tied model<->implementation (catalogue), not judged. Known finding D42 covers "
+               "C-<UPPER-CASE letter> and M-<non-ASCII character> (names never produced) - footprint: exactly those name shapes "
+               "with 'name not producible' as the deviation",
                "the model covers the property's three encodings (utf-8, ascii, latin-1); utf-16, utf-16-le, utf-32 and cp1252 "
                "are judged ON THE REAL CODE ONLY (oracle without a model line): the three naming modes must decide alike on "
                "every short byte string and cut short streams at the same places, bytes naming returning exactly the bytes",
                "configuration names are str of code points; str.isdigit is modelled on ASCII digits (names with other "
                "Unicode digits are outside the model's domain and not generated)"]
 TRUSTED = c03.TRUSTED
+LEVEL_NOTE = ("trusted: Lean kernel + propext/Classical.choice/Quot.sound, the hand-written decoder / KeyMap model, extract.py, the "
+              "wire codec; CPython is modelled not verified. Judged domain of configuration names: C-<a..z, A..Z>, M-<0x20..0x7e> and "
+              "three non-ASCII representatives, F1-F12, SPECIALS, the empty name; OPEN FINDING D42 (C-<UPPER-CASE>, M-<non-ASCII> map "
+              "to names never produced): C20_config_partial carries the complement, C20_D42_witness refutes the full statement. "
+              "The mode theorems cover utf-8, ascii, latin-1; utf-16, utf-16-le, utf-32, cp1252 are judged on the real code only "
+              "(oracle without a model line)")
 
 # encodings outside the modelled domain, judged on the real code only (no driver line): the decoder treats them as
 # "could need more bytes" (the repo's own tests use 'utf16')
 EXTRA_ENCS = ["utf-16", "utf-16-le", "utf-32", "cp1252"]
 
+NONASCII = ["\u00e9", "\u00df", "\u0416"]          # representatives of "all printable characters" beyond ASCII
 VALID = ([""] + sorted(SPECIALS) + ["C-" + chr(c) for c in range(ord("a"), ord("z") + 1)]
-         + ["M-" + chr(c) for c in range(0x20, 0x7f)] + ["F%d" % i for i in range(1, 13)])
-CATALOGUE = ["x", "C", "M", "F", "C-", "M-", "F-", "c-a", "m-a", "f1", "C-A", "C-Z", "C-1", "C-ab", "C--", "M-ab", "M-  ",
-             "M-\x7f", "M-\xe9", "C-\xe9", "F0", "F00", "F01", "F012", "F13", "F99", "F123456789", "F1a", "Fa", "F 1",
+         + ["C-" + chr(c) for c in range(ord("A"), ord("Z") + 1)]
+         + ["M-" + chr(c) for c in range(0x20, 0x7f)] + ["M-" + c for c in NONASCII] + ["F%d" % i for i in range(1, 13)])
+
+
+def is_d42_name(n):
+    """the two name shapes of known finding D42: C-<UPPER-CASE letter>, M-<non-ASCII character>"""
+    return len(n) == 3 and ((n[:2] == "C-" and "A" <= n[2] <= "Z") or (n[:2] == "M-" and ord(n[2]) >= 128))
+
+
+CATALOGUE = ["x", "C", "M", "F", "C-", "M-", "F-", "c-a", "m-a", "f1", "C-1", "C-\u00c9", "C-ab", "C--", "M-ab", "M-  ",
+             "M-\x7f", "C-\xe9", "F0", "F00", "F01", "F012", "F13", "F99", "F123456789", "F1a", "Fa", "F 1",
              "F-1", "F+1", " ", "C_a", "CC-a", "-", "--", "a-C", "F1 ", " F1", "C-[[", "C-^^", "C-i ", "M-M-a"]
 
 
@@ -76,21 +92,13 @@ def oracle_node(a):
             bad.append("bytes naming returned %r for bytes %r" % (r, bytes(seq)))
     if len(set(shapes.values())) != 1:
         bad.append("naming modes decide differently on the same bytes: %r" % (shapes,))
-    return [(w, "D39" if is_d39(enc, bytes(seq), shapes) else None) for w in bad]
-
-
-def is_d39(enc, seq, shapes):
-    """footprint of known finding D39: an encoding other than the property's three; a multi-byte curtsies-only
-    table sequence; curses naming raises NotImplementedError while curtsies and bytes naming return a key"""
-    return (enc not in ENCS and len(seq) > 1 and seq in ev.CURTSIES_NAMES and seq not in ev.CURSES_NAMES
-            and shapes.get("curses") == ("raises", "NotImplementedError")
-            and shapes.get("curtsies") == "key" and shapes.get("bytes") == "key")
+    return [(w, None) for w in bad]
 
 
 def oracle_stream(a):
     enc, units, kind = a
     buf = b"".join(units)
-    cuts, fails = {}, {}
+    cuts = {}
     for mode in MODES:
         try:
             ps = kc.segment(buf, enc, mode)
@@ -99,13 +107,8 @@ def oracle_stream(a):
                 return [("bytes naming does not return exactly the bytes of each keypress", None)]
         except kc.FindFailure as f:
             cuts[mode] = type(f.exc).__name__
-            fails[mode] = f
     if not (cuts["curtsies"] == cuts["curses"] == cuts["bytes"]):
-        f = fails.get("curses")
-        fp = None
-        if f is not None and f.at is not None and cuts["curtsies"] == cuts["bytes"] and isinstance(cuts["bytes"], list):
-            fp = "D39" if is_d39(enc, bytes(f.at), {"curses": ("raises", type(f.exc).__name__), "curtsies": "key", "bytes": "key"}) else None
-        return [("naming modes cut the stream at different places: %r" % (cuts,), fp)]
+        return [("naming modes cut the stream at different places: %r" % (cuts,), None)]
     return []
 
 
@@ -138,6 +141,24 @@ def check(ctx, search=False):
         ctx.count(("getkey", it[0], "all", 1, hx(it[1])), tag="table-entry-whole")
         for w, fp in b:
             ctx.violation(w, ("getkey", it[0], "curtsies", 1, hx(it[1])), fp)
+    # ---- _key_name directly (the naming step alone, incl. the 'bytes: xNN-xNN' names get_key cannot reach here) -------
+    seqs = [b"\x1b\xff", b"\xff\xfe", b"\xff", b"\x80", b"a", b"ab", b"\xc3\xa9", b"\xe2\x82", b"\x1b[A", b"\x1b[P", b"\x1b",
+            b"\x1b[1;10A", b"\xc0\x41", b"\x00\xff\x10", b"\xed\xa0\x80", b"\x08", b"\x7f", b"\xf0\x9f\x98\x80"]
+    seqs += [bytes(ctx.rng.choice((ctx.rng.randrange(256), ctx.rng.choice(kc.ALPHA18))) for _ in range(ctx.rng.randint(1, 5))) for _ in range(300)]
+    kn = [("keyname", enc, mode, hx(x)) for x in seqs for enc in ENCS for mode in MODES]
+
+    def kn_impl(c):
+        _, enc, mode, h = c
+        try:
+            return "ok " + kc.enc_key(ev._key_name(unhx(h), ENCS[enc], MODES[mode]))
+        except Exception as e:  # noqa: BLE001
+            return kc.exc_kind(e)
+    if not search:
+        ctx.tie("C20/key_name", kn, lambda c: "keyname %s %s %s" % c[1:], kn_impl)
+    for c in kn:
+        ctx.count(c, tag="key_name")
+        if c[2] == "curses" and kn_impl(c).startswith("E:NotImplementedError"):
+            ctx.violation("curses naming raises NotImplementedError where the other modes name the key", c, None)
     # ---- modes along the decision tree ------------------------------------------------------------------------
     for enc, nodes in c03.trees(ctx).items():
         cases = [("getkey", enc, mode, full, hx(n)) for n in nodes for full in (0, 1) for mode in MODES]
@@ -200,7 +221,8 @@ def check(ctx, search=False):
             ctx.violation("valid configuration name maps to nothing", ("keymap", n), None)
         for name in got:
             if name not in prod:
-                ctx.violation("configuration name maps to %r, which the decoder never produces" % name, ("keymap", n), None)
+                ctx.violation("configuration name maps to %r, which the decoder never produces" % name, ("keymap", n),
+                              "D42" if is_d42_name(n) else None)
     for n in CATALOGUE:
         ctx.count(("keymap", n), tag="config-catalogue")
 
